@@ -110,6 +110,8 @@ var progSpecs = []progSpec{
 	{"component_definition", "TagArg", "Find", "arg_Find"},
 	{"component_definition", "TagArg", "Has", "arg_Has"},
 	{"component_definition", "", "isIntersect", "arg_isIntersect"},
+	{"container/processors", "DefaultTagScanDefinitionRegistryPostProcessor", "PostProcessDefinitionRegistry", "scan_PostProcessDefinitionRegistry"},
+	{"component_definition", "", "NewProperty", "prop_NewProperty"},
 }
 
 // conversions whose single argument is passed through unchanged
@@ -353,6 +355,9 @@ func (t *tr) call(c *ast.CallExpr) string {
 						return "(.sliceLit [])"
 					}
 				}
+			}
+			if len(c.Args) == 1 {
+				return fmt.Sprintf("(.call %s [])", lq("make:"+exprName(c.Args[0]))) // make(T) of a map / channel type: a fresh empty value
 			}
 			return t.unsupported("make", c)
 		case "new", "panic", "recover", "copy", "delete", "cap":
